@@ -2,6 +2,7 @@ package rules
 
 import (
 	"fmt"
+	"go/types"
 
 	"golang.org/x/tools/go/ssa"
 
@@ -16,6 +17,7 @@ func init() {
 		Explanation: "R1 (ESP): every ChangeOps.WriteOrCreateFiles call whose file contents are a marshalled VMLaunchEndorsement is reachable only in states where an existence probe of the workspace (a function of package endorse returning (bool, error) that invokes ChangeOps.ReadFile) returned false or output.AllowOverwrite returned true. " +
 			"R2 (slice): where a VMEndorsementMap_Entry is built, Path and the written file path share one basename origin (the gate's result) and Digest derives from sha512.Sum384 of Context.Image. " +
 			"R3 (ESP): the manifest write (file path derived from endorse.ManifestFile) happens only after an endorsement write succeeded; the marshalled map is the object the manifest was parsed into. " +
+			"R4 (CFG): in the function that merges the new entry into the manifest list, no call that drops entries keyed by the new entry's digest or path is reachable after that digest/path was placed in the list (the fresh entry would be dropped with the stale one). " +
 			"Not covered: the four-way merge preserving path/digest uniqueness over histories (a relational invariant over list contents), that the manifest parses back.",
 		Assumptions: []string{"go/types, go/ssa, VTA call graph", "ChangeOps.ReadFile / IsNotFound faithfully report existence"},
 		Run:         runC13,
@@ -279,6 +281,124 @@ func runC13(c *Ctx) {
 		}
 	}
 	c.S.Floor("R2", "manifest entry constructions in package endorse", 1, entries)
+
+	// ---- R4: the entry just placed is not filtered out again ----
+	// In the function that merges the new entry into the manifest list, a call that drops entries
+	// (a list → list function of the package) keyed by the new entry's own digest or path must not be
+	// reachable after the new digest/path has been placed in the list: it would drop the fresh entry too.
+	isEntryList := func(t types.Type) bool {
+		st, ok := t.Underlying().(*types.Slice)
+		return ok && namedIs(st.Elem(), repoPath("proto/releases"), "VMEndorsementMap_Entry")
+	}
+	nMerge := 0
+	for _, f := range c.P.RepoFunctions() {
+		if load.RelPkg(f) != "endorse" || c.isTestFunc(f) || f.Blocks == nil {
+			continue
+		}
+		sig := f.Signature
+		if sig.Results().Len() != 1 || !isEntryList(sig.Results().At(0).Type()) {
+			continue
+		}
+		var listP, entryP *ssa.Parameter
+		for _, p := range f.Params {
+			if isEntryList(p.Type()) {
+				listP = p
+			} else if namedIs(p.Type(), repoPath("proto/releases"), "VMEndorsementMap_Entry") {
+				entryP = p
+			}
+		}
+		if listP == nil || entryP == nil {
+			continue
+		}
+		nMerge++
+		fromEntry := func(v ssa.Value) bool {
+			return sl.Derives(v, func(x ssa.Value) bool {
+				pth := flow.PathOf(x)
+				return pth.Root == ssa.Value(entryP) && len(pth.Fields) > 0 && (pth.Fields[0] == "Digest" || pth.Fields[0] == "Path")
+			})
+		}
+		var placements, filters []ssa.Instruction
+		for _, b := range f.Blocks {
+			for _, in := range b.Instrs {
+				switch x := in.(type) {
+				case *ssa.Store:
+					if fa, ok := x.Addr.(*ssa.FieldAddr); ok {
+						if pt, ok := fa.X.Type().Underlying().(*types.Pointer); ok && namedIs(pt.Elem(), repoPath("proto/releases"), "VMEndorsementMap_Entry") {
+							if n := flow.FieldName(fa); (n == "Digest" || n == "Path") && fa.X != ssa.Value(entryP) && fromEntry(x.Val) {
+								placements = append(placements, x)
+							}
+						}
+					}
+					if x.Val == ssa.Value(entryP) {
+						if _, isElem := x.Addr.(*ssa.IndexAddr); isElem {
+							placements = append(placements, x) // append(entries, entry)
+						}
+					}
+				case *ssa.Call:
+					g := x.Call.StaticCallee()
+					if g == nil || g == f || !load.FuncInRepo(g) || g.Signature.Results().Len() != 1 || !isEntryList(g.Signature.Results().At(0).Type()) {
+						continue
+					}
+					takesList, keyed := false, false
+					for _, a := range x.Call.Args {
+						if isEntryList(a.Type()) {
+							takesList = true
+						} else if fromEntry(a) {
+							keyed = true
+						}
+					}
+					if takesList && keyed {
+						filters = append(filters, x)
+					}
+				}
+			}
+		}
+		after := func(a, b ssa.Instruction) bool { // b reachable after a
+			if a.Block() == b.Block() {
+				ia, ib := -1, -1
+				for i, in := range a.Block().Instrs {
+					if in == a {
+						ia = i
+					}
+					if in == b {
+						ib = i
+					}
+				}
+				if ib > ia {
+					return true
+				}
+			}
+			seen := map[*ssa.BasicBlock]bool{}
+			stack := append([]*ssa.BasicBlock{}, a.Block().Succs...)
+			for len(stack) > 0 {
+				x := stack[len(stack)-1]
+				stack = stack[:len(stack)-1]
+				if seen[x] {
+					continue
+				}
+				seen[x] = true
+				if x == b.Block() {
+					return true
+				}
+				stack = append(stack, x.Succs...)
+			}
+			return false
+		}
+		bad := false
+		for _, fl := range filters {
+			for _, pl := range placements {
+				if after(pl, fl) {
+					bad = true
+					c.S.Bad("R4", load.FuncName(f)+":entry dropped after placement", c.pos(fl.Pos()), fmt.Sprintf("entries matching the new entry's digest/path are dropped (%s) after the new digest/path was placed in the list at %s: the entry of the firmware just endorsed is removed with the stale one", callName(fl.(ssa.CallInstruction)), c.pos(pl.Pos())))
+				}
+			}
+		}
+		c.S.Floor("R4", "placements of the new entry in "+load.FuncName(f), 1, len(placements))
+		if !bad {
+			c.S.OK("R4", load.FuncName(f)+":entry dropped after placement", c.pos(f.Pos()), fmt.Sprintf("%d drop calls keyed by the new entry, all before the %d placements", len(filters), len(placements)), true)
+		}
+	}
+	c.S.Floor("R4", "manifest merge functions in package endorse", 1, nMerge)
 
 	// ---- R3b: marshalled manifest map is the parsed object ----
 	for _, f := range c.P.RepoFunctions() {
